@@ -367,7 +367,7 @@ def main(harness_name, argv=None):
     # ---- replay counter-examples in a fresh process (no proxies, no stubs) -----------------
     os.makedirs(REPLAYS, exist_ok=True)
     known = load_known(prop)
-    seen_sig, violations, known_hits, nonrepro = {}, [], {}, []
+    seen_sig, violations, known_hits, nonrepro, unit_level = {}, [], {}, [], []
     max_replays = getattr(H, "MAX_REPLAYS", 16)
     n_replayed = 0
     # one counter-example of every distinct signature first, so that no kind of violation is starved by the replay cap
@@ -401,7 +401,9 @@ def main(harness_name, argv=None):
             else:
                 violations.append((c, path))
         else:
-            if not getattr(H, "UNIT_LEVEL_SIGS", None) or not re.match(H.UNIT_LEVEL_SIGS, sig):
+            if getattr(H, "UNIT_LEVEL_SIGS", None) and re.match(H.UNIT_LEVEL_SIGS, sig):
+                unit_level.append((c, path, rep))
+            else:
                 nonrepro.append((c, path, rep))
 
     wall = time.time() - t0
@@ -446,6 +448,8 @@ def main(harness_name, argv=None):
         "violations": [{"signature": c["signature"], "replay": p, "detail": c["replay"].get("detail", "")[:300]} for c, p in violations],
         "known_findings_hit": [{"id": k["id"], "replay": p} for k, (kk, p) in known_hits.items() for k in [kk]],
         "non_reproducing": [{"signature": c["signature"], "replay": p, "detail": str(rep.get("detail", ""))[:300]} for c, p, rep in nonrepro],
+        "unit_level_counterexamples": [{"signature": c["signature"], "replay": p, "confirmed_at_unit_level": bool(rep.get("unit_confirmed")),
+                                        "detail": str(rep.get("detail", ""))[:300]} for c, p, rep in unit_level],
         "harness_errors": harness_errors, "path_errors_sample": errors[:8],
     }
     ev = {"property_id": prop, "tier": args.tier, "seed": seed, "level": "other", "coverage": coverage,
@@ -464,6 +468,8 @@ def main(harness_name, argv=None):
             print(f"  slow: {r['job']} wall={r['wall']} paths={r['paths']} unexplored={r['unexplored']} solver_s={r['solver_s']:.1f}+{r['ob_solver_s']:.1f}")
     for kid, (k, path) in known_hits.items():
         print(f"KNOWN-FINDING: property={prop} {k['id']}: {k['what']} (replay={path})")
+    for c, path, rep in unit_level[:4]:
+        print(f"UNIT-LEVEL-COUNTEREXAMPLE property={prop} {c['signature']} (over-approximated precondition; not a violation unless the pipeline exploration confirms it) replay={path}")
     for c, path in violations:
         print(f"VIOLATION property={prop} replay={path}")
         print("  ", c["signature"], "|", str(c["replay"].get("detail", ""))[:300])
